@@ -15,12 +15,16 @@ M = 'cell_type_mapper.marker_selection.utils.'
 
 def _gen_utility(rng, size):
     import numpy as np
-    up, down = _sel.gen_tables(rng, size, min_pairs=1)
+    up, down = _sel.gen_tables(rng, size + 3, min_pairs=1)
     n_pairs = up.shape[0]
     mask = None
     if rng.random() < 0.7:
         mask = np.array(sorted(rng.sample(range(n_pairs), rng.randint(1, n_pairs))), dtype=int)
-    return dict(marker_gene_array=_sel.make_mga(up, down), gb_size=rng.choice([10, 1, 1e-9]), taxonomy_mask=mask)
+    # batch sizes of 2 and 3 pairs as well (they need not divide the number of pairs): the batch size is
+    # round(gb_size * 1024**3 / (3 * n_genes)), at least 1
+    n_genes = up.shape[1]
+    gb = rng.choice([10, 1, 1e-9, 2 * 3 * n_genes / 1024 ** 3, 3 * 3 * n_genes / 1024 ** 3])
+    return dict(marker_gene_array=_sel.make_mga(up, down), gb_size=gb, taxonomy_mask=mask)
 
 
 def _census_ok(mga, taxonomy_mask, result):
@@ -42,7 +46,7 @@ contract(
     M + 'create_utility_array',
     properties=['C12'], mode='bounded',
     native=dict(gen=_gen_utility, env=dict(census_ok=_census_ok), weight=2,
-                bound='<= 4 pairs, <= 5 genes, with / without a pair subset, 3 batch sizes (incl. one pair per batch)'),
+                bound='<= 7 pairs, <= 8 genes, with / without a pair subset, batch sizes 1, 2, 3 pairs and everything at once'),
     params=dict(marker_gene_array='Opaque', gb_size='Real', taxonomy_mask='Opaque'),
     returns='Opaque',
     ensures=["census_ok(marker_gene_array, taxonomy_mask, result)"],
